@@ -194,3 +194,21 @@ Definition is_code (t : table) (c : byte) : bool := existsb (fun p => snd p =? c
 (* no code byte is itself protected *)
 Definition clean (t : table) : bool :=
   forallb (fun b => negb (protected t b && is_code t b)) all_bytes.
+
+(* ---- escapeReader with an EMPTY announced table (totalCount = 0): Read hands the caller's
+   buffer straight to the underlying reader, which fills it with at most len(p) bytes of
+   its current chunk and keeps the rest ---- *)
+Fixpoint er_run_passthru (fuel : nat) (cs : list (list byte)) (sizes : list nat) (dflt : nat)
+  : list (list byte) :=
+  match fuel with
+  | O => []
+  | S f =>
+    let '(size, sizes') := next_size sizes dflt in
+    match cs with
+    | [] => []
+    | c :: cs' =>
+      if (length c <=? size)%nat then c :: er_run_passthru f cs' sizes' dflt
+      else firstn size c :: er_run_passthru f (skipn size c :: cs') sizes' dflt
+    end
+  end.
+Definition er_passthru_fuel (cs : list (list byte)) : nat := S (length (concat cs) + length cs).
